@@ -102,6 +102,8 @@ def case_text(b):
         return "%s%s classes %s" % (c["fn"], c["types"], c["classes"])
     if c["k"] == "jump":
         return "%s %s in a %s subroutine called from vcl_%s" % (c["jstmt"], c["nest"], c["callkind"], c["scope"])
+    if c["k"] == "vars":
+        return "read %s in vcl_%s after path %s" % (c["name"], c["scope"], c["path"])
     if c["k"] == "bigcalls":
         return "call graph %s of %d subs doubled=%s recursive=%s functional=%s" % (c["shape"], c["size"], c["doubled"], c["recursive"], c["functional"])
     if c["k"] == "initerr":
@@ -146,7 +148,12 @@ def run(ctx):
     os.replace(out, table)
     if os.path.getsize(table) < 1000:
         raise MachineryFault("built-in table could not be generated from %s" % yml)
-    common = dict(module="Total", workers=2, timeout=1500, extra_files=[table])
+    vyml = os.path.join(vlib.REPO, "__generator__", "predefined.yml")
+    vtable = os.path.join(ctx.work, "VariablesTable.tla")
+    os.replace(ctx.harness("vhc08", ["variables-tla", "-yml", vyml], out_name="VariablesTable.gen"), vtable)
+    if os.path.getsize(vtable) < 1000:
+        raise MachineryFault("variable table could not be generated from %s" % vyml)
+    common = dict(module="Total", workers=2, timeout=1500, extra_files=[table, vtable])
     jobs = [
         ("assign", dict(common, cfg="Total_assign.cfg", tag="assign")),
         ("builtin", dict(common, cfg="Total_builtin.cfg", tag="builtin",
@@ -156,6 +163,7 @@ def run(ctx):
         ("request", dict(common, cfg="Total_request.cfg", tag="request")),
         ("jump", dict(common, cfg="Total_jump.cfg", tag="jump")),
         ("bigcalls", dict(common, cfg="Total_bigcalls.cfg", tag="bigcalls")),
+        ("vars", dict(common, cfg="Total_vars.cfg", tag="vars")),
         ("initerr", dict(common, cfg="Total_initerr.cfg", tag="initerr")),
         ("director", dict(common, cfg="Total_director.cfg", tag="director")),
         ("lifecycle", dict(module="LifecycleTotal", cfg="LifecycleTotal.cfg", workers=2, timeout=1500, tag="lifecycle",
@@ -186,7 +194,7 @@ def run(ctx):
 
     cases = []
     for name, pre in (("assign", "a"), ("builtin", "b"), ("calls", "c"), ("include", "i"), ("request", "r"), ("jump", "j"),
-                      ("initerr", "e"), ("director", "d"), ("bigcalls", "g")):
+                      ("initerr", "e"), ("director", "d"), ("bigcalls", "g"), ("vars", "v")):
         cases += load_cases([res[name].beh_path], pre)
     # lifecycle behaviours are wrapped into the case format
     import itertools
@@ -263,7 +271,7 @@ def classify(ctx, cases, results):
         if out not in b.get("allowed", ["value", "error"]):
             rec["mismatch"] = [{"obs": out, "family": c["k"], "case": case_text(b), "msg": (r.get("msg") or "")[:300]}]
             fs = ctx.notes.setdefault("failing_summary", {})
-            key = "%s %s: %s: %s" % (c["k"], c.get("fn") or c.get("dtype") or c.get("class") or c.get("callkind") or c.get("op") or "", out,
+            key = "%s %s: %s: %s" % (c["k"], c.get("fn") or c.get("name") or c.get("dtype") or c.get("class") or c.get("callkind") or c.get("op") or "", out,
                                       (r.get("msg") or "")[:70])
             if key in fs or len(fs) < 40:
                 fs[key] = fs.get(key, 0) + 1
